@@ -165,6 +165,8 @@ def run(c):
         cl = t[2]
         return confirm_case(c, drv, cs, lambda e: (cl == "panic" and e["panic"]) or (cl == "over-allocation" and e["alloc"] > 16 * e["n"] + 3 * 65536 + 8192))
     c.triage(mism, classify, confirm)
+    def _c(e): e["alloc"] = 16 * e["n"] + 3 * 65536 + 8192 + 1; return e
+    binding_selftest(c, "Trace_C01", events, lambda x: '"panic":false' in x, _c, "the allocation raised above the bound")
     c.cov["notes_accept_reject"] = sum(1 for _, t in mism if t[0] == "NOTE")
     c.cov["max_alloc_ratio"] = None
     worst = 0.0; big = 0
